@@ -73,7 +73,7 @@ def canonicalise(d):
         info['types'] = dict(tren)
         txt = json.dumps(d)
         for newp, oldp in sorted(tren.items(), key=lambda kv: -len(kv[0])):
-            txt = re.sub(r'(?<![\w:])' + re.escape(newp) + r'(?![\w])', oldp.replace('\\', '\\\\'), txt)
+            txt = re.sub(r'(?<!\w)(?<!::)' + re.escape(newp) + r'(?![\w])', oldp.replace('\\', '\\\\'), txt)
         d = json.loads(txt)
     bodies = d['bodies']
     prod = [b for b in bodies if b['kind'] in ('fn', 'assoc') and not is_test_name(b['fn'], b.get('file', ''))]
